@@ -291,3 +291,353 @@ def grow_layout(progs):
                 rr.add(Finding('GROW-LAYOUT', f['key'], prog.site(f, node) if isinstance(node, dict) and node.get('l') and not where else f['loc'],
                                '%s, entered %s%s: %s' % (nm, label, (' (in ' + ' > '.join(where) + ')') if where else '', msg), where=f['pname'], unit=prog.uname))
     return rr
+
+
+# ================================================================================================ XCHG-LAYOUT
+# swap_impl / move_construct / move_assign of SmallVectorBase: two objects, each with its words, its union and possibly a heap block.
+
+IA, IB, HA, HB = {}, {'IB': 1}, {'HA': 1}, {'HB': 1}           # bases of: this inline, other inline, this block, other block
+CA, CB, KA, KB = {'CA': 1}, {'CB': 1}, {'KA': 1}, {'KB': 1}
+
+
+class XInterp(S.Interp):
+    """Interp + two objects ('this', 'other').  frame.this_obj names the object `this` designates in the function being interpreted."""
+
+    def objof(self, base, fr):
+        """'this' / 'other' for the object expression `base` (None: implicit this), else None."""
+        if base is None:
+            return getattr(fr, 'this_obj', 'this')
+        b = A.strip(base)
+        if isinstance(b, dict) and b.get('k') == 'un' and b.get('op') == '*':
+            b = A.strip(b.get('sub'))
+        if isinstance(b, dict) and b.get('k') == 'this':
+            return getattr(fr, 'this_obj', 'this')
+        if isinstance(b, dict) and b.get('k') == 'cast':
+            return self.objof(b.get('sub'), fr)
+        v = S.Interp.ev(self, base, fr) if isinstance(b, dict) and b.get('k') == 'ref' else None
+        if v is not None and v[0] == 'obj':
+            return v[1]
+        return None
+
+    def field(self, n, fr):
+        n = A.strip(n)
+        if isinstance(n, dict) and n.get('k') == 'mem' and n.get('field') and n.get('name') in ('_capa', '_size', '_storage'):
+            o = self.objof(n.get('base'), fr)
+            if o is not None:
+                return o, n['name']
+        return None
+
+    def ev(self, n, fr):
+        n0 = A.strip(n)
+        if isinstance(n0, dict):
+            fo = self.field(n0, fr)
+            if fo is not None:
+                o, fld = fo
+                if fld == '_storage':
+                    return ('stor', o)
+                return ('int', dict(self.m.objs[o]['words'][fld]))
+            if n0.get('k') == 'this':
+                return ('objptr', getattr(fr, 'this_obj', 'this'))
+            if n0.get('k') == 'un' and n0.get('op') == '*' and isinstance(A.strip(n0.get('sub')), dict) and A.strip(n0['sub']).get('k') == 'this':
+                return ('obj', getattr(fr, 'this_obj', 'this'))
+            if n0.get('k') in ('ref', 'mem') and ((n0.get('name') or '') == 'kMaxSize' or (n0.get('staticvar') or '').endswith('kMaxSize')):
+                return ('int', dict(MAX_))
+        return S.Interp.ev(self, n, fr)
+
+    def assign(self, lhs, rhs, fr, op='='):
+        l0 = A.strip(lhs)
+        if isinstance(l0, dict) and l0.get('k') == 'call' and (l0.get('clsq') or '') == SVB:
+            raise Unknown('store through a reference returned by %s()' % A.cshort(l0))
+        fo = self.field(lhs, fr)
+        if fo is not None and fo[1] in ('_capa', '_size'):
+            v = self.ev(rhs, fr)
+            if v[0] != 'int' or op != '=':
+                raise Unknown('size word assigned a value the interpreter does not follow')
+            self.m.objs[fo[0]]['words'][fo[1]] = dict(v[1])
+            return v
+        return S.Interp.assign(self, lhs, rhs, fr, op)
+
+    def inline_on(self, callee, n, args, fr, obj):
+        self._next_this = obj
+        try:
+            return self.inline(callee, n, args, fr)
+        finally:
+            self._next_this = None
+
+    def inline(self, callee, n, args, fr):
+        m = self.m
+        if m.depth > 12:
+            raise Unknown('inlining too deep')
+        nf = S.Frame(callee)
+        nf.this_obj = getattr(self, '_next_this', None) or getattr(fr, 'this_obj', 'this')
+        self._next_this = None
+        vals = [self.ev(a, fr) for a in args]
+        for i, v in enumerate(vals):
+            nf.env[('p', i)] = v
+        m.depth += 1
+        m.frames.append(callee)
+        try:
+            self.run(callee['body'], nf)
+            res = TOP
+        except S._Ret as r:
+            res = r.v
+        finally:
+            m.depth -= 1
+            m.frames.pop()
+        return res
+
+    def call(self, n, fr):
+        m = self.m
+        nm, sn, args = A.callee(n), A.cshort(n), n.get('args', []) or []
+        if 'assert' in (n.get('mac') or []):
+            return TOP
+        # the union
+        if n.get('method') and n.get('obj') is not None:
+            ov = self.ev(n['obj'], fr)
+            if ov[0] == 'stor':
+                o = m.objs[ov[1]]
+                if sn == 'ptr' and not args:
+                    return ('ptr', dict(o['inline']))
+                if sn == 'dyn' and not args:
+                    for a, b, c in m.pieces(o['inline'], ladd(o['inline'], NN_)):
+                        if S.alive(c) and not m.trivial:
+                            raise Violation('the heap pointer of `%s` is read while inline elements live in the union (%s in slots [%s, %s))' % (ov[1], S.cfmt(c), fmt(a), fmt(b)), n)
+                    if o['ptr'] is None:
+                        raise Violation('the heap pointer of `%s` is read although that vector is in its inline state' % ov[1], n)
+                    return o['ptr']
+                if sn == 'setDyn' and len(args) == 1:
+                    v = self.ev(args[0], fr)
+                    if v[0] != 'ptr':
+                        raise Unknown('setDyn with a value the interpreter does not follow')
+                    for a, b, c in m.pieces(o['inline'], ladd(o['inline'], NN_)):
+                        if S.alive(c) and not m.trivial:
+                            raise Violation('the heap pointer is stored into `%s` over inline slots that still hold objects (%s)' % (ov[1], S.cfmt(c)), n)
+                    o['ptr'] = v
+                    return TOP
+        if sn == 'max' and not args and 'numeric_limits' in nm:
+            return ('int', dict(MAX_))
+        if sn in ('swap', 'exchange') and len(args) == 2 and self.field(args[0], fr) and self.field(args[0], fr)[1] != '_storage':
+            (oa, fa) = self.field(args[0], fr)
+            if sn == 'swap':
+                fb = self.field(args[1], fr)
+                if fb is None:
+                    raise Unknown('swap of a size word with something else')
+                wa, wb = m.objs[oa]['words'], m.objs[fb[0]]['words']
+                wa[fa], wb[fb[1]] = wb[fb[1]], wa[fa]
+                return TOP
+            old = ('int', dict(m.objs[oa]['words'][fa]))
+            nv = self.ev(args[1], fr)
+            if nv[0] != 'int':
+                raise Unknown('exchange of a size word with a value the interpreter does not follow')
+            m.objs[oa]['words'][fa] = dict(nv[1])
+            return old
+        if sn == 'deallocate' and len(args) == 2:
+            p, c = self.ev(args[0], fr), self.ev(args[1], fr)
+            if p[0] != 'ptr' or c[0] != 'int':
+                raise Violation('deallocate is given a pointer / count that is not a block with its capacity', n)
+            m.deallocs.append((dict(p[1]), dict(c[1])))
+            return TOP
+        if sn in ('allocate', 'reallocate', 'grow'):
+            raise Unknown('allocation inside an exchange')
+        # members of the bases called on this / on the other object; static helpers taking the objects
+        callee = m.prog.fns.get(n.get('fn')) if n.get('fn') else None
+        if callee is not None and callee.get('body') is not None and (callee.get('clsq') or '') == SVB and callee.get('name', '').startswith('amc::vec::'):
+            if n.get('method') and not callee.get('static'):
+                o = self.objof(n.get('obj'), fr)
+                if o is None:
+                    raise Unknown('member called on an object the interpreter does not follow')
+                return self.inline_on(callee, n, args, fr, o)
+            return self.inline(callee, n, args, fr)
+        return S.Interp.call(self, n, fr)
+
+
+def decode(m, name):
+    """(state, size form, storage base, capacity form) of an object from its words, or a Violation."""
+    o = m.objs[name]
+    w = o['words']
+    lt = ladd(ladd(w['_size'], w['_capa'], -1), lconst(-1))           # _size - _capa - 1 >= 0  <=>  _capa < _size
+    if not m.feasible([lt]):
+        if o['ptr'] is None:
+            raise Violation('`%s` decodes to the heap state (`_capa` = %s, `_size` = %s) but holds no heap pointer' % (name, fmt(w['_capa']), fmt(w['_size'])), None)
+        return 'large', w['_size'], o['ptr'][1], w['_capa']
+    if not m.feasible([ladd(w['_capa'], w['_size'], -1)]):
+        return 'small', w['_capa'], o['inline'], None
+    raise Violation('the state of `%s` is not determined by its words (`_capa` = %s, `_size` = %s)' % (name, fmt(w['_capa']), fmt(w['_size'])), None)
+
+
+def xchg_configs(kind):
+    gap = ladd(ladd(ladd(NN_, ladd(KA, KB)), ladd(CA, CB)), lconst(1))
+    base = [dict(CA), dict(CB), dict(KA), dict(KB), ladd(NN_, lconst(-1)), ladd(MAX_, ladd(NN_, lconst(1)), -1), ladd(MAX_, KA, -1), ladd(MAX_, KB, -1),
+            ladd(IB, gap, -1), ladd(HA, ladd(IB, gap), -1), ladd(HB, ladd(HA, gap), -1)]
+
+    def st(s, C, K):
+        if s == 'S':
+            return [ladd(ladd(NN_, C, -1), lconst(-1))], {'_capa': dict(C), '_size': dict(NN_)}
+        if s == 'F':
+            return [ladd(C, NN_, -1), ladd(NN_, C, -1)], {'_capa': dict(C), '_size': dict(MAX_)}
+        return [ladd(K, C, -1)], {'_capa': dict(K), '_size': dict(C)}
+    out = []
+    for sa in (('S',) if kind == 'move_construct' else ('S', 'F', 'L')):
+        for sb in ('S', 'F', 'L'):
+            ca, wa = st(sa, CA, KA)
+            cb, wb = st(sb, CB, KB)
+            cons = base + ca + cb
+            if kind == 'move_construct':
+                cons = cons + [lneg(CA)]                  # the vector under construction is empty
+            out.append((sa, sb, cons, wa, wb))
+    return out
+
+
+STATE_TXT = {'S': 'inline and not full', 'F': 'inline and full', 'L': 'on the heap'}
+
+
+def xchg_run(prog, f, E, kind, cfg, limit=600):
+    sa, sb, cons, wa, wb = cfg
+    stack, paths = [[]], 0
+    while stack:
+        trail = stack.pop()
+        m = S.Machine(prog, f, E, trail)
+        m.cons = [dict(c) for c in cons]
+        m.size = {}
+        segs = []
+        segs.append((dict(IA), ladd(IA, CA), S.old()) if sa != 'L' else (dict(HA), ladd(HA, CA), S.old()))
+        segs.append((dict(IB), ladd(IB, CB), S.old()) if sb != 'L' else (dict(HB), ladd(HB, CB), S.old()))
+        segs.sort(key=lambda x: (('IB' in x[0]) * 1 + ('HA' in x[0]) * 2 + ('HB' in x[0]) * 3))
+        bounds, cont = [{}], [RAW]
+        for lo, hi, c in segs:
+            if lo:
+                bounds += [dict(lo), dict(hi)]
+                cont += [c, RAW]
+            else:
+                bounds, cont = [{}, dict(hi)], [c, RAW]
+        m.bounds, m.cont = bounds, cont
+        m.objs = {'this': {'words': {k: dict(v) for k, v in wa.items()}, 'ptr': ('ptr', dict(HA)) if sa == 'L' else None, 'inline': dict(IA)},
+                  'other': {'words': {k: dict(v) for k, v in wb.items()}, 'ptr': ('ptr', dict(HB)) if sb == 'L' else None, 'inline': dict(IB)}}
+        m.deallocs = []
+        fr = S.Frame(f)
+        fr.this_obj = 'this'
+        for i, p in enumerate(f.get('params', [])):
+            if SVB.split('::')[-1] in p['t'] and p['t'].rstrip().endswith('&'):
+                fr.env[('p', i)] = ('obj', 'other')
+            elif A.width(p['t']):
+                fr.env[('p', i)] = ('int', dict(NN_))
+        ip = XInterp(m)
+        try:
+            try:
+                ip.run(f['body'], fr)
+            except S._Ret:
+                pass
+            except S._Thrown:
+                raise Infeasible()
+            origin = {'this': (dict(IA) if sa != 'L' else dict(HA), CA, KA, sa), 'other': (dict(IB) if sb != 'L' else dict(HB), CB, KB, sb)}
+            want_from = {'this': 'other', 'other': 'this'} if kind == 'swap_impl' else {'this': 'other', 'other': None}
+            expect_alive = []
+            for name in ('this', 'other'):
+                state, size, base, capa = decode(m, name)
+                src = want_from[name]
+                if src is None:
+                    if state != 'small' or not m.entails_eq(size, {}):
+                        raise Violation('the moved-from vector is left %s with size %s; expected the empty inline state' % ('on the heap' if state == 'large' else 'inline', fmt(size)), None)
+                    if not m.entails_eq(m.objs[name]['words']['_size'], NN_):
+                        raise Violation('the moved-from vector is left with `_size` = %s; the empty inline state has N there' % fmt(m.objs[name]['words']['_size']), None)
+                    continue
+                obase, osize, ocapa, ostate = origin[src]
+                if not m.entails_eq(size, osize):
+                    raise Violation('`%s` ends with size %s; expected the size of %s (%s)' % (name, fmt(size), 'the other vector' if src == 'other' else 'this vector', fmt(osize)), None)
+                if kind == 'swap_impl':
+                    if (state == 'large') != (ostate == 'L'):
+                        raise Violation('`%s` ends %s although the vector it exchanges with was %s' % (name, 'on the heap' if state == 'large' else 'inline', STATE_TXT[ostate]), None)
+                    ow = (wb if src == 'other' else wa)
+                    for fld in ('_capa', '_size'):
+                        if not m.entails_eq(m.objs[name]['words'][fld], ow[fld]):
+                            raise Violation('`%s` ends with `%s` = %s; expected the word of the vector it exchanges with (%s)' % (name, fld, fmt(m.objs[name]['words'][fld]), fmt(ow[fld])), None)
+                elif state == 'small':
+                    cap_word = m.objs[name]['words']['_size']
+                    full = m.compare(size, NN_) == 0
+                    if not m.entails_eq(cap_word, MAX_ if full else NN_):
+                        raise Violation('`%s` ends inline with `_size` = %s; expected %s (N, or the full marker when size == N)' % (name, fmt(cap_word), 'the marker' if full else 'N'), None)
+                if state == 'large' and ostate == 'L' and kind != 'move_assign' and not m.entails_eq(base, obase):
+                    raise Violation('`%s` ends on the heap but does not point to the block of the vector it takes over' % name, None)
+                expect_alive.append((dict(base), ladd(base, size), ladd(base, obase, -1)))
+            # layout
+            covered = []
+            for lo, hi, d in expect_alive:
+                for a, b, got in m.pieces(lo, hi):
+                    if not S.same_content(m, got, S.old(d)):
+                        raise Violation('on return slots [%s, %s) hold %s; expected the elements taken over, in order' % (fmt(a), fmt(b), S.cfmt(got)), None)
+                covered.append((lo, hi))
+            for a, b, got in m.pieces({}, None):
+                if not S.alive(got) or m.trivial:
+                    continue
+                if any(m.compare(a, lo) >= 0 and (b is not None and m.compare(b, hi) <= 0) for lo, hi in covered):
+                    continue
+                raise Violation('on return slots [%s, %s) still hold objects (%s) that belong to neither vector' % (fmt(a), fmt(b), S.cfmt(got)), None)
+            # blocks: each heap block is owned by exactly one vector afterwards, or was given back exactly once with its capacity
+            for blk, cap, had in ((HA, KA, sa == 'L'), (HB, KB, sb == 'L')):
+                if not had:
+                    continue
+                owners = [nm_ for nm_ in ('this', 'other') if decode(m, nm_)[0] == 'large' and m.objs[nm_]['ptr'] is not None and m.entails_eq(m.objs[nm_]['ptr'][1], blk)]
+                freed = [c for p_, c in m.deallocs if m.entails_eq(p_, blk)]
+                if len(owners) + len(freed) != 1:
+                    raise Violation('the heap block %s is owned by %d vector(s) and was given back %d time(s) on return; expected exactly one of the two, once'
+                                    % ('of this vector' if blk is HA else 'of the other vector', len(owners), len(freed)), None)
+                if freed and not m.entails_eq(freed[0], cap):
+                    raise Violation('a heap block is given back with %s slots; its capacity is %s' % (fmt(freed[0]), fmt(cap)), None)
+                if owners:
+                    w_ = m.objs[owners[0]]['words']
+                    if not m.entails_eq(w_['_capa'], cap):
+                        raise Violation('`%s` owns a block of capacity %s but its `_capa` is %s' % (owners[0], fmt(cap), fmt(w_['_capa'])), None)
+            for p_, c in m.deallocs:
+                if not (m.entails_eq(p_, HA) and sa == 'L') and not (m.entails_eq(p_, HB) and sb == 'L'):
+                    raise Violation('deallocate is called on %s, which is not a block either vector owned on entry' % fmt(p_), None)
+            paths += 1
+        except Split as sp:
+            for i in range(sp.k):
+                stack.append(trail + [i])
+        except Infeasible:
+            pass
+        except Violation as v:
+            return paths, (str(v), v.node, [short(x['name']) for x in m.frames])
+        if paths + len(stack) > limit:
+            raise Unknown('too many paths')
+    return paths, None
+
+
+def xchg_layout(progs):
+    rr = RuleResult('XCHG-LAYOUT', 'swap_impl / move_construct / move_assign of SmallVectorBase, for every pair of states of the two vectors (inline not full / inline full / '
+                                   'heap): afterwards each vector decodes - from its own size words and union - to the size and the elements it was to receive, in '
+                                   'order, a moved-from vector is the empty inline vector, nothing else is alive, and every heap block is owned by exactly one vector or '
+                                   'was given back exactly once with its capacity (two objects in the SEG-LAYOUT machine; `_capa < _size` decided by the constraint store)')
+    seen = set()
+    for prog in progs:
+        E = prog.meta.get('E')
+        if not E:
+            continue
+        for f in prog.amc_functions():
+            nm = short(f.get('name', ''))
+            ps = f.get('params', [])
+            if f.get('body') is None or f.get('clsq') != SVB or nm not in ('swap_impl', 'move_construct', 'move_assign') or not ps or 'SmallVectorBase' not in ps[0]['t']:
+                continue
+            bad, total, broken = None, 0, None
+            for cfg in xchg_configs(nm):
+                try:
+                    paths, b = xchg_run(prog, f, E, nm, cfg)
+                except Unknown as e:
+                    broken = 'XCHG-LAYOUT: cannot interpret %s (this %s, other %s): %s' % (f['pname'][:90], cfg[0], cfg[1], e)
+                    break
+                total += paths
+                if b:
+                    bad = (b, cfg)
+                    break
+            if broken:
+                rr.broken = rr.broken or broken
+                continue
+            rr.instance('%s|%s' % (f['key'], prog.uname), {'function': f['pname'][:140], 'state pairs': len(xchg_configs(nm)), 'paths': total,
+                                                          'verdict': 'violated' if bad else 'each vector ends with what it was to receive'})
+            if bad and f['key'] not in seen:
+                seen.add(f['key'])
+                (msg, node, where), cfg = bad
+                rr.add(Finding('XCHG-LAYOUT', f['key'], prog.site(f, node) if isinstance(node, dict) and node.get('l') and not where else f['loc'],
+                               '%s with this vector %s and the other %s%s: %s' % (nm, STATE_TXT[cfg[0]], STATE_TXT[cfg[1]], (' (in ' + ' > '.join(where) + ')') if where else '', msg),
+                               where=f['pname'], unit=prog.uname))
+    return rr
